@@ -458,14 +458,17 @@ func writeReplay(e *Engine, o *Obligation, path, repo, verif string) bool {
 	if o.Model != "" {
 		rec["model_inputs"] = modelSummary(o.Model, o.Inputs)
 		rec["solver_output"] = truncate(o.Model, 6000)
-		if res, ok := tryReplay(e, o, repo, verif); ok {
-			rec["replay"] = res
-			if res["confirmed"] == true {
-				noInput = false
-			}
-		}
 	} else {
 		rec["solver_output"] = o.Detail
+	}
+	if res, ok := tryReplay(e, o, repo, verif); ok {
+		rec["replay"] = res
+		if res["confirmed"] == true {
+			noInput = false
+			if o.Model == "" {
+				rec["witness_source"] = "the solvers returned no model for this quantified obligation; the failing input comes from the replay template's registered witnesses for this obligation"
+			}
+		}
 	}
 	rec["failing_input_found"] = !noInput
 	data, _ := json.MarshalIndent(rec, "", " ")
